@@ -21,6 +21,7 @@ accepts, and every refusal is a ValueError; (iii) PKCS#1 v1.5, PSS-for-a-given-s
 byte-identical to the reference, FIPS-mode (EC)DSA equals the reference for the k read off the tape; (iv) repeating
 sign()/verify() with the same hash/XOF object gives the same outcome and leaves digest()/the next read() unchanged.
 """
+import multiprocessing
 import time
 
 from ..common import Acc, chunks
@@ -42,6 +43,10 @@ RULE = ("complete enumeration of the stated grids: scheme x key x hash x (MGF, s
         "scheme's decision (length / range / decoding / padding / equation); distinct_nontrivial counts distinct (scheme, key, "
         "configuration, candidate class, reference verdict and reason, library outcome) tuples actually observed")
 BUDGET = {"quick": 200, "thorough": 1700}
+
+
+def _selftest_ec():
+    REC.selftest()
 
 
 def _balance(items, nbins):
@@ -181,12 +186,19 @@ def run(ctx):
     q = ctx.quick
     acc = ctx.acc
     t0 = time.time()
-    for mod in (R, RD, REC, D, RMD):
+    # the EC reference self-test takes ~5 s: it runs in a forked child while the parent builds the keys
+    child = multiprocessing.get_context("fork").Process(target=_selftest_ec)
+    child.start()
+    for mod in (R, RD, D, RMD):
         mod.selftest()
     B.check_hash_table(acc)
     RSA.build_keys(acc)
     DSS.build_keys(acc)
     ED.build_keys(acc)
+    child.join(300)
+    if child.exitcode != 0:
+        acc.error("mc.ref.ec.selftest() failed (exit code %r)" % child.exitcode)
+        return
     phases = {"selftests_and_keys": round(time.time() - t0, 1)}
     nb = max(32, ctx.workers * 5)
     for name, mod, plan in (("dss", DSS, dss_plan(q)), ("rsa", RSA, rsa_plan(q)), ("eddsa", ED, ed_plan(q))):
